@@ -23,7 +23,7 @@ theorem scanJ_fresh {c : Ctx} {w : Wid} {s : Store} (hKN : KeysNodup c.own) (hC 
     unfold bookOf occs
     simp [occsOfBlock, hGt, occsFrom]
   have hA := hI.agree
-  refine ⟨?_, ?_, ?_, ?_, hI.sync, hI.syncedTo⟩
+  refine ⟨?_, ?_, ?_, ?_, fun w' _ hr => hI.bal w' hr, hI.sync, hI.syncedTo⟩
   · rw [hbook]
     constructor
     · intro w' tx idx
@@ -47,9 +47,8 @@ theorem scanJ_fresh {c : Ctx} {w : Wid} {s : Store} (hKN : KeysNodup c.own) (hC 
   · rw [hbook, hb]; rfl
 
 /-- the joined scan invariant at the tip is C01's invariant for the full keystore table -/
-theorem scanJ_tip_inv {c : Ctx} {w : Wid} {s0 s : Store} {k : Nat} (hKN : KeysNodup c.own) (hC : ChainOK c)
-    (hS : ScanJ c w s k) (hk : k + 1 = c.node.chain.length)
-    (hI0 : Inv { c with own := ownR c.own w } s0 c.node.chain) (hO : OthersSame w s0 s) :
+theorem scanJ_tip_inv {c : Ctx} {w : Wid} {s : Store} {k : Nat} (hKN : KeysNodup c.own) (hC : ChainOK c)
+    (hS : ScanJ c w s k) (hk : k + 1 = c.node.chain.length) :
     Inv c s c.node.chain := by
   have hOr := ownR_sub hKN w
   have hOw := ownW_sub hKN w
@@ -73,13 +72,7 @@ theorem scanJ_tip_inv {c : Ctx} {w : Wid} {s0 s : Store} {k : Nat} (hKN : KeysNo
   · intro w' hw'
     by_cases hww : w' = w
     · rw [hww, hBl, join_total_w (p := c.p) hOw]
-    · rw [hO.1 w' hww, ← join_total_r (p := c.p) (chain := c.node.chain) hOr w' hww]
-      apply hI0.bal w'
-      unfold readyWallets at hw' ⊢
-      rw [List.contains_iff_mem, List.mem_filter] at hw' ⊢
-      refine ⟨hw'.1, ?_⟩
-      have := hw'.2
-      rw [hO.2.1 w' hww] at this
-      exact this
+    · rw [← join_total_r (p := c.p) (chain := c.node.chain) hOr w' hww]
+      exact hS.balR w' hww hw'
 
 end MW.Lemmas.ImportJoin
